@@ -804,6 +804,11 @@ CLASS_MODELS[_weakref.ReferenceType] = m_weakref
 
 def m_uuid(I, args, kw):
     v = args[0] if args else kw.get("hex")
+    if isinstance(v, Opaque) and I.lenient:
+        # parsing an unknown string: succeeds or raises ValueError
+        if I.path.choose(2, f"uuid-parse@{I.cur_line}") == 1:
+            I.raise_(ValueError)
+        return Opaque(f"UUID({v.tag})", cls=_uuid.UUID)
     if isinstance(v, str):
         try:
             return _uuid.UUID(v)
